@@ -541,6 +541,50 @@ pub fn oor<Tr: ?Sized + Trait, B: Backend, E: Elem + SatisfyTraits<Tr>>(p: P, wh
 /// Large concrete shape without the model (the 128-byte switch inside `copy_bytes`):
 /// `len` one-byte elements, insert one value at `idx` by source `src`, then compare an arbitrary
 /// position with the closed-form expectation.
+pub fn big_remove<Tr: ?Sized + Trait, B: Backend, E: Elem + SatisfyTraits<Tr>>(len: usize, idx: usize, typed: bool) {
+    reset_all();
+    let mut v: AnyVec<Tr, B> = B::mk::<Tr, E>(len);
+    {
+        let mut t = v.downcast_mut::<E>().unwrap();
+        let p = t.as_mut_ptr();
+        let mut i = 0;
+        while i < len {
+            unsafe { p.add(i).write(E::make((i & 0xF) as u8, ((i >> 4) & 0xF) as u8)) };
+            i += 1;
+        }
+        unsafe { t.set_len(len) };
+    }
+    if typed {
+        let x = v.downcast_mut::<E>().unwrap().remove(idx);
+        vp_assert!(x.id() == (idx & 0xF) as u8 && x.tag() == ((idx >> 4) & 0xF) as u8, "VP: removed element differs from Vec model");
+    } else {
+        drop(v.remove(idx));
+    }
+    vp_assert!(v.len() == len - 1, "VP: len() differs from Vec model");
+    let t = v.downcast_ref::<E>().unwrap();
+    let s = t.as_slice();
+    let j = any_usize();
+    let chk = |j: usize| {
+        let e = &s[j];
+        let o = if j < idx { j } else { j + 1 };
+        vp_assert!(e.id() == (o & 0xF) as u8 && e.tag() == ((o >> 4) & 0xF) as u8, "VP: element identity differs from Vec model");
+    };
+    #[cfg(kani)]
+    {
+        assume(j < len - 1);
+        chk(j);
+    }
+    #[cfg(not(kani))]
+    {
+        let _ = j;
+        for j in 0..len - 1 {
+            chk(j);
+        }
+    }
+    drop(v);
+    reached_end();
+}
+
 pub fn big<Tr: ?Sized + Trait, B: Backend, E: Elem + SatisfyTraits<Tr>>(len: usize, idx: usize, src: Src) {
     reset_all();
     let mut v: AnyVec<Tr, B> = B::mk::<Tr, E>(len + 1);
